@@ -44,8 +44,9 @@ MapStep(e, which) ==
     LET m0 == IF which = "A" THEN mA ELSE mB
         r  == Apply(m0, e)
         ar == AbsApply(Entries(m0), e, r)
-    IN /\ r.ret = e.ret
-       /\ r.pan = e.pan
+    IN \* a "lenient" line only advances the specification (used when the observers are judged after a call
+       \* of another property's concern has already been rejected)
+       /\ IF Has(e, "lenient") THEN TRUE ELSE (r.ret = e.ret /\ r.pan = e.pan)
        /\ AcctOK(e, r.m)
        /\ StateOK(r.m)
        \* the abstract map agrees as well (specification self-check at full width);
@@ -73,11 +74,18 @@ FindFacetOK(E, f) ==
 PfxOf(o) == IF o = <<>> THEN <<>> ELSE <<o[1].p>>
 PfxsOf(s) == [i \in 1..Len(s) |-> s[i].p]
 ValsOf(s) == [i \in 1..Len(s) |-> s[i].v]
+\* the contents the specification expects at this point, when the line can be related to a state:
+\* "sr" = the preceding calls were replayed on the specification; "expE" = given explicitly
+HasState(e) == Has(e, "sr") \/ Has(e, "expE")
+StateE(e) == IF Has(e, "expE") THEN EntrySet(e.expE) ELSE Entries(mA)
+Ascending(it) == \A i \in 1..(Len(it) - 1) : KeyLess(it[i].p, it[i + 1].p)
 ObsStep(e) ==
     LET E == EntrySet(e.E) IN
     /\ Cardinality(E) = Len(e.E)                             \* no key twice
-    /\ e.iter = SortedPV(E)                                  \* C03: order, exactly once
-    /\ Has(e, "nolen") \/ (e.len = Cardinality(E) + drift /\ e.empty = (e.len = 0))   \* C04 (drift only via finding F4)
+    /\ Ascending(e.iter)                                     \* C03: strictly ascending, hence nothing twice
+    /\ e.iter = SortedPV(E)                                  \* C03 / C01: iteration and exact-match sweep agree
+    /\ IF HasState(e) THEN E = StateE(e) ELSE TRUE           \* C01: the contents are what the history produced
+    /\ IF Has(e, "nolen") THEN TRUE ELSE (e.len = Cardinality(E) + drift /\ e.empty = (e.len = 0))   \* C04 (drift only via finding F4)
     /\ \A i \in 1..Len(e.qs) :
          LET q == e.qs[i] IN
          /\ q.get = AVal(E, q.q.n)                           \* C01
@@ -120,7 +128,8 @@ Expected(e) ==
     IF e.a = "Reset" THEN [kind |-> "reset"]
     ELSE IF e.a = "Obs" THEN
         LET E == EntrySet(e.E) IN
-        [kind |-> "obs", iter |-> SortedPV(E), len |-> IF Has(e, "nolen") THEN e.len ELSE Cardinality(E) + drift,
+        [kind |-> "obs", iter |-> SortedPV(E), ascending |-> Ascending(e.iter), hasState |-> HasState(e),
+         stateE |-> IF HasState(e) THEN SortedPV(StateE(e)) ELSE <<>>, len |-> IF Has(e, "nolen") THEN e.len ELSE Cardinality(E) + drift,
          qs |-> [i \in 1..Len(e.qs) |->
                    LET q == e.qs[i] IN
                    [q |-> q.q, get |-> AVal(E, q.q.n), kv |-> AOptPV(E, q.q.n), has |-> B2S(AHas(E, q.q.n)),
